@@ -53,6 +53,7 @@ type PodEvictor struct {
 	dryRun                     bool
 	maxPodsToEvictPerNode      *uint
 	maxPodsToEvictPerNamespace *uint
+	evictLock                  sync.Mutex // serializes Evict: the limit checks and the counting of one eviction are atomic
 	lock                       sync.RWMutex
 	totalCount                 int
 	nodepodCount               nodePodEvictedCount
@@ -101,6 +102,8 @@ func (pe *PodEvictor) TotalEvicted() int {
 
 // NodeLimitExceeded checks if the number of evictions for a node was exceeded
 func (pe *PodEvictor) NodeLimitExceeded(nodeName string) bool {
+	pe.lock.RLock()
+	defer pe.lock.RUnlock()
 	if pe.maxPodsToEvictPerNode != nil {
 		return pe.nodepodCount[nodeName] == *pe.maxPodsToEvictPerNode
 	}
@@ -108,6 +111,8 @@ func (pe *PodEvictor) NodeLimitExceeded(nodeName string) bool {
 }
 
 func (pe *PodEvictor) NamespaceLimitExceeded(namespace string) bool {
+	pe.lock.RLock()
+	defer pe.lock.RUnlock()
 	if pe.maxPodsToEvictPerNamespace != nil {
 		return pe.namespacePodCount[namespace] == *pe.maxPodsToEvictPerNamespace
 	}
@@ -116,6 +121,9 @@ func (pe *PodEvictor) NamespaceLimitExceeded(namespace string) bool {
 
 func (pe *PodEvictor) Evict(ctx context.Context, pod *corev1.Pod, opts framework.EvictOptions) bool {
 	framework.FillEvictOptionsFromContext(ctx, &opts)
+
+	pe.evictLock.Lock()
+	defer pe.evictLock.Unlock()
 
 	nodeName := pod.Spec.NodeName
 	if pe.NodeLimitExceeded(nodeName) {
